@@ -32,9 +32,10 @@
 (* the model: QueryStep reads the live `inputs`; the invariants below say   *)
 (* that what it read is exactly the workspace of the snapshot's version.    *)
 (*                                                                         *)
-(* One action per critical section / atomic operation.  The three BOOLEAN   *)
-(* constants are TRUE for glas; the *_bad configurations switch one off to  *)
-(* show that the invariants and the liveness property are not vacuous.      *)
+(* One action per critical section / atomic operation.  The four BOOLEAN    *)
+(* constants are TRUE for glas; the negative configurations (Host_torn,     *)
+(* Host_nocancel, Host_firstwins) switch one off to show that the           *)
+(* invariants and the liveness property are not vacuous.                    *)
 (***************************************************************************)
 EXTENDS Integers, Sequences, FiniteSets, TLC
 
